@@ -754,6 +754,18 @@ type fileOpt struct {
 func (g *gen) goodFile(p *PkgRec, base, class string, o fileOpt) *FileRec {
 	f := g.newFile(p, base, class)
 	s := &src{g: g, file: f, pkg: p}
+	// what precedes the package clause: nothing, blank lines (legal Go; gofmt would remove
+	// them), or a comment block followed by blank lines. Positions must not depend on it.
+	switch g.r.Intn(5) {
+	case 0:
+		for n := 1 + g.r.Intn(4); n > 0; n-- {
+			s.ln("")
+		}
+	case 1:
+		s.ln("// Code generated for a test tree. DO NOT EDIT.")
+		s.ln("")
+		s.ln("")
+	}
 	s.ln("package %s", p.Name)
 	s.ln("")
 	var imps []string
